@@ -115,6 +115,41 @@ def obligations(tier, sc):
                       note="informational: expected to FAIL; shows that mux0 is not re-selected when only the task type toggles "
                            "null/non-null while the subsystem stays Task body")))
 
+    # (5) the chain END TO END for one event in which the running thread of the CPU changes: views -> mux0 -> tr -> mux1 -> tri ->
+    # sort input -> rows, the three views written in the order of the REAL enum <model>_chan (= the order in which the CPU
+    # tracking muxes, attached to the CPU's running-thread channel in channel-index order by model_cpu.c, dirty them).
+    for model, mdef in (("nosv", []), ("nanos6", ["MODEL_NANOS6"])):
+        for sscls in (0, 1, 2):
+            obs.append(Obligation(
+                name="chain_to_sort_%s_ss%d" % (model, sscls), harness="C20/chain.c",
+                defines=mdef + ["NCPU=2", "SSCLS=%d" % sscls], native_cflags=NATIVE, incdirs=UT,
+                unwind=9, timeout=1200, extra=["--object-bits", "12"],
+                desc=dict(functions=["%s/breakdown.c: create_cpu, connect_cpu, select_tr, select_idle" % model,
+                                     "mux.c: mux_init, mux_set_input, mux_set_default, mux_get_input, cb_select, cb_input, select_input",
+                                     "sort.c: sort_init, sort_set_input, sort_get_output, sort_cb_input, sort_replace, cmp_int64",
+                                     "chan.c: chan_init, chan_prop_set, chan_set, chan_read, chan_flush"],
+                          symbolic="views before the event (channels of the old running thread) and after it (channels of the new running thread): "
+                                   "subsystem in {null, Task body, other}, task type null or ANY int64, idle in {null, Progressing, other}, equal to the old "
+                                   "ones or not; the CPU never ran a thread / ran one; the sort module untouched / incremental; the other CPU's value (any int64)",
+                          bound="one CPU under test + one other CPU (2 rows), one event = one bay propagation in which the CPU's running thread changes: "
+                                "all three views are written, in the order of their index in the real enum %s_chan; 'other' = one representative per use "
+                                "(k+1 before the event; 2^32+k or the unchanged k+1 written by the event)" % model,
+                          state_split="subsystem class %d of (0 null incl. the CPU that never ran a thread, 1 Task body, 2 other)" % sscls,
+                          out="events of the running thread itself (subsets of the views written in the order of the model's event code: tri by select_*, "
+                              "one sort step by sort_cb_input_*); states reached through TT_GAP; two CPUs changing in the same instant; "
+                              "a non-null breakdown value 0 with the sort module untouched; emit phase / PRV output (C13); the real bay.c (C06)",
+                          oracle="rows after the propagation = sort({v, other}), v = idle if idle != Progressing else task type if Task body with a task else subsystem "
+                                 "else Unknown subsystem, computed from the NEW views (final state of the instant, never an intermediate one); tri = v; "
+                                 "sort.values / sorted / copied consistent; rows untouched when v did not change; everything clean and flushed",
+                          assumptions=["ghost patch bay harness/C20/c20_ghost_bay.h (dirty list in order of becoming dirty, live callback lists as bay.c's utlist walk, flush at the end)",
+                                       "the CPU tracking muxes dirty the views of a CPU in channel-index order when its running thread changes "
+                                       "(model_cpu.c connect_cpu attaches them to the running-thread channel for i = 0..CH_MAX-1; cb_select always writes its output); "
+                                       "the harness iterates the real enum",
+                                       "Inv of select_* for the two muxes (proved inductive there); sort Inv of sort_cb_input_*",
+                                       "sort outputs are leaf channels of the ghost bay (no dirty callbacks)",
+                                       "qsort = stable insertion sort model (stubs/libc_model.h) with the real cmp_int64",
+                                       "calloc of mux_init / sort_init served from typed zeroed pools"])))
+
     # (4) wiring recorder: create + connect of the breakdown view on a small system
     for model, mdef in (("nosv", []), ("nanos6", ["MODEL_NANOS6"])):
         for vmask in (0x14, 0x05):
